@@ -306,6 +306,28 @@ static void run_c09_future(void)
     ABT_bool ready = ABT_FALSE;
     ABT_OK(ABT_future_test(F.fut, &ready));
     SIM_CHECK(ready, "future:not-ready", "future not ready after all compartments were set");
+    if (plan_n(3) == 0) {
+        /* second use after ABT_future_reset (nobody else uses the future now): not ready until
+         * the k-th new set, callback once more, a surplus set fails again */
+        ABT_OK(ABT_future_reset(F.fut));
+        F.waits_ret = 0;
+        F.cb_done = 0;
+        ABT_OK(ABT_future_test(F.fut, &ready));
+        SIM_CHECK(F.k == 0 ? ready : !ready, "future:reset", "after ABT_future_reset a future with %d compartments reports ready=%d", F.k, (int)ready);
+        for (int i = 0; i < F.k; i++) {
+            ABT_OK(ABT_future_test(F.fut, &ready));
+            SIM_CHECK(!ready, "future:ready-before-sets", "second round: ready after %d of %d sets", i, F.k);
+            ABT_OK(ABT_future_set(F.fut, F.vals[i]));
+        }
+        int rc = ABT_future_set(F.fut, F.vals[7]);
+        SIM_CHECK(rc == ABT_ERR_FUTURE, "future:late-set", "second round: a surplus ABT_future_set returned %d", rc);
+        ABT_OK(ABT_future_wait(F.fut));
+        ABT_OK(ABT_future_test(F.fut, &ready));
+        SIM_CHECK(ready, "future:not-ready", "second round: future not ready after all compartments were set");
+        if (F.with_cb && F.k > 0)
+            SIM_CHECK(F.cb_calls == 2 && F.cb_bad == 0, "future:callback-count", "second round: callback ran %d times in total (bad=%d)", F.cb_calls, F.cb_bad);
+        sim_count("c09.future_reset_rounds", 1);
+    }
     ABT_OK(ABT_future_free(&F.fut));
     wl_rt_stop(rt);
 }
